@@ -57,6 +57,9 @@ def gen_pred_atom(rng, names):
     """predicates / symbolic functions as atoms (the statement's fragment names them explicitly)"""
     v, w = rng.choice(names), rng.choice(names)
     k = rng.random()
+    if k < 0.12:
+        # a predicate that is given plain values only: a constant condition with the truth value of its call
+        return ["pred", "IntGreater", [["lit", rng.randint(0, 2)], ["lit", rng.randint(0, 2)]]]
     if k < 0.35:
         return ["pred", "BothPositive", [["var", v], ["var", w]]]
     if k < 0.6:
@@ -106,6 +109,8 @@ def gen_fragment(rng, names, depth, ctx):
     # or_ between sides over the same variable set
     left = gen_fragment(rng, names, depth - 1, ctx)
     vs = sorted(G.cond_vars(left))
+    if not vs:
+        return left         # a constant condition (a predicate over plain values): nothing to range the other side over
     right = gen_conj(rng, vs, ctx, must=vs)
     if G.cond_vars(right) != set(vs):
         return left
